@@ -100,4 +100,76 @@ Proof.
   - intros m Hm. apply Hsum. lia.
 Qed.
 
+(* ---- forward transform of the inverse transform; band-pass = low-pass o high-pass ---- *)
+Lemma omi_prim d : (0 < d < N)%nat -> pow omi d <> 1.
+Proof using Fth HN Hom Hinv Hprim HinvN.
+  intros Hd E. apply (Hprim d Hd).
+  transitivity (pow om d * pow omi d); [rewrite E; ring|].
+  apply (om_cancel R rO rI radd rmul rsub ropp rdiv rinv Fth N om omi invN HN Hom Hinv Hprim HinvN).
+Qed.
+
+Lemma dft_idft X k : (k < N)%nat -> nth k (DFT (IDFT X)) 0 = get X k.
+Proof using Fth HN Hom Hinv Hprim HinvN.
+  intros Hk.
+  transitivity (nth k (idft R rO rI radd rmul om invN N (dft R rO rI radd rmul omi N X)) 0).
+  - unfold idft, dft. rewrite (nth_map_seq _ N k 0 Hk).
+    rewrite (nth_map_seq (fun k0 => invN * sum N (fun m => get (map _ (seq 0 N)) m * pow om (m * k0))) N k 0 Hk).
+    rewrite (sum_scale_l R rO rI radd rmul rsub ropp Rth). apply (sum_ext R rO rI radd rmul rsub ropp Rth).
+    intros j Hj. unfold getr at 1 3. rewrite !nth_map_seq by exact Hj. ring.
+  - assert (Hinv' : omi * om = 1) by (rewrite <- Hinv; ring).
+    apply (idft_dft R rO rI radd rmul rsub ropp rdiv rinv Fth N omi om invN HN
+             (pow_omi_N R rO rI radd rmul rsub ropp rdiv rinv Fth N om omi invN HN Hom Hinv Hprim HinvN)
+             Hinv' omi_prim HinvN X k Hk).
+Qed.
+
+Lemma fexpand_pmul c1 c2 ns H1 H2 :
+  (forall a b, conj (a * b) = conj a * conj b) -> length c1 = length c2 ->
+  fexpand rO conj c1 ns = Some H1 -> fexpand rO conj c2 ns = Some H2 ->
+  exists H, fexpand rO conj (PMUL c1 c2) ns = Some H /\ length H = length H1 /\
+    forall m, (m < length H1)%nat -> nth m H 0 = nth m H1 0 * nth m H2 0.
+Proof using Fth HN Hom Hinv Hprim HinvN.
+  intros Hcm Hlen. unfold fexpand.
+  rewrite (pmul_length R rO rI radd rmul rsub ropp Rth c1 c2 Hlen). rewrite <- Hlen.
+  set (il := Z.quot (ns + ns mod 2) 2).
+  destruct ((1 <? il)%Z && (Z.of_nat (length c1) <? il)%Z) eqn:G; [discriminate|].
+  intros [= <-] [= <-]. eexists. split; [reflexivity|]. split.
+  - rewrite !app_length, !map_length. now rewrite (pmul_length R rO rI radd rmul rsub ropp Rth c1 c2 Hlen).
+  - intros m Hm. rewrite app_length, map_length, zrange_length in Hm.
+    assert (HP : length (PMUL c1 c2) = length c1) by apply (pmul_length R rO rI radd rmul rsub ropp Rth c1 c2 Hlen).
+    destruct (Nat.lt_ge_cases m (length c1)) as [Hc|Hc].
+    + rewrite !app_nth1 by lia. apply (nth_pmul R rO rI radd rmul rsub ropp Rth); lia.
+    + rewrite !app_nth2 by lia. rewrite HP, <- Hlen.
+      rewrite !(nth_map_zrange R) by lia.
+      assert (Hq : (Z.to_nat (il - 1 - Z.of_nat (m - length c1)) < length c1)%nat).
+      { apply andb_false_iff in G as [G|G]; lia. }
+      rewrite (nth_pmul R rO rI radd rmul rsub ropp Rth) by lia. apply Hcm.
+Qed.
+
+(* band-pass (response c1 * c2) = filter c2 applied to filter c1 (before np.real) *)
+Lemma bp_product c1 c2 ts r u v :
+  (forall a b, conj (a * b) = conj a * conj b) ->
+  Z.of_nat (length c1) = (Z.of_nat N / 2 + 1)%Z -> Z.of_nat (length c2) = (Z.of_nat N / 2 + 1)%Z ->
+  freq_filter R rO rI radd rmul om omi invN conj N (PMUL c1 c2) ts = Some r ->
+  freq_filter R rO rI radd rmul om omi invN conj N c1 ts = Some u ->
+  freq_filter R rO rI radd rmul om omi invN conj N c2 u = Some v ->
+  forall k, (k < N)%nat -> nth k r 0 = nth k v 0.
+Proof using Fth HN Hom Hinv Hprim HinvN.
+  intros Hcm Hc1 Hc2 Hr Hu Hv k Hk. unfold freq_filter in Hr, Hu, Hv.
+  destruct (fexpand rO conj c1 (Z.of_nat N)) as [H1|] eqn:E1; [|discriminate].
+  destruct (fexpand rO conj c2 (Z.of_nat N)) as [H2|] eqn:E2; [|discriminate].
+  destruct (fexpand_pmul c1 c2 _ H1 H2 Hcm ltac:(lia) E1 E2) as (H12 & E12 & Hl12 & Hprod).
+  rewrite E12 in Hr. injection Hr as <-. injection Hu as <-. injection Hv as <-.
+  destruct (freduce_fexpand R rO conj c1 (Z.of_nat N) ltac:(lia) Hc1) as (E & HE & HlenE & _).
+  rewrite E1 in HE. injection HE as <-.
+  destruct (freduce_fexpand R rO conj c2 (Z.of_nat N) ltac:(lia) Hc2) as (E' & HE' & HlenE' & _).
+  rewrite E2 in HE'. injection HE' as <-.
+  assert (HD : forall y, length (DFT y) = N) by (intros; unfold dft; now rewrite map_length, seq_length).
+  unfold idft at 1 2. rewrite !nth_map_seq by exact Hk. f_equal.
+  apply (sum_ext R rO rI radd rmul rsub ropp Rth). intros m Hm. f_equal. unfold getr.
+  rewrite !(nth_pmul R rO rI radd rmul rsub ropp Rth) by (rewrite ?HD; lia).
+  rewrite Hprod by lia.
+  rewrite (dft_idft _ m Hm). unfold getr.
+  rewrite (nth_pmul R rO rI radd rmul rsub ropp Rth) by (rewrite ?HD; lia). ring.
+Qed.
+
 End FilterField.
